@@ -21,6 +21,7 @@ type PlayOpts struct {
 	BigIdx       bool
 	StartEpoch   int     // >1: the instance is Reset() directly to that epoch and fed only later events
 	ColdIndex    bool    // restart once before the final all-pairs queries (cold caches)
+	RichFrom     int     // rich builds only after that many events of the epoch
 	RichBuilds   float64 // probability of a speculative Build of the creator's next event on top of ALL current heads, right before its real (sparser) event
 	Rebuilds     float64 // probability that the BuildEach copy is built twice: first with the self-parent only, then again (same object) with all parents
 	ResetAfter   int     // >0: after that many accepted events of an epoch the instance is Reset() to the very same epoch and validator set and the epoch's events are fed again from the start
@@ -250,7 +251,7 @@ func Play(r *rand.Rand, s *Scenario, o PlayOpts, rec *Recorder) (blocks []BlockR
 					rec.BuildLine(s, bev, te.Frame())
 				}
 			}
-			if o.RichBuilds > 0 && ev.SP != 0 && r.Float64() < o.RichBuilds {
+			if o.RichBuilds > 0 && ev.SP != 0 && len(done) >= o.RichFrom && r.Float64() < o.RichBuilds {
 				// what the creator could have built: same self-parent, every other validator's latest event as parent
 				latest := map[idx.ValidatorID]*Ev{}
 				for _, d := range done {
@@ -272,6 +273,9 @@ func Play(r *rand.Rand, s *Scenario, o PlayOpts, rec *Recorder) (blocks []BlockR
 				if err == nil {
 					rec.BuildLine(s, bev, te.Frame())
 					rec.Stats["rich_builds"]++
+					if len(done) >= 1000 {
+						rec.Stats["rich_builds_after_1000_events"]++
+					}
 					if te.Frame() > ev.MaxFr && ev.MaxFr >= ev.Frame {
 						// the sparser real event claiming the frame of the richer candidate that was only built: not allowed
 						cl := s.CloneWithFrame(ev, te.Frame(), cloneID)
